@@ -104,6 +104,28 @@ def generate(repo, outdir):
     subspec_writes = [n for n in ast.walk(gf) if isinstance(n, ast.Subscript) and isinstance(n.ctx, ast.Store) and ast.unparse(n.value) == "subspec"]
     if not subspec_writes:
         subspec_copied = True
+    # the font cache is keyed by the object number of the font dictionary (a key that determines the value), never by
+    # a page-local resource name: every get_font call passes None or `objid`, and `objid` is only ever None or spec.objid
+    key_ok = True
+    for fn in sorted(os.listdir(os.path.join(repo, "pdfminer"))):
+        if not fn.endswith(".py"):
+            continue
+        t2 = ast.parse(open(os.path.join(repo, "pdfminer", fn), encoding="utf-8").read())
+        for n in ast.walk(t2):
+            if isinstance(n, ast.Call) and isinstance(n.func, ast.Attribute) and n.func.attr == "get_font":
+                if not n.args or ast.unparse(n.args[0]) not in ("None", "objid"):
+                    key_ok = False
+    ir = find_def(tree, "PDFPageInterpreter", "init_resources")
+    for n in ast.walk(ir):
+        if isinstance(n, ast.Assign) and any(ast.unparse(t) == "objid" for t in n.targets):
+            if ast.unparse(n.value) not in ("None", "spec.objid"):
+                key_ok = False
+        if isinstance(n, (ast.AugAssign, ast.AnnAssign)) and ast.unparse(n.target) == "objid":
+            key_ok = False
+    guarded = [n for n in ast.walk(ir) if isinstance(n, ast.If) and ast.unparse(n.test) == "isinstance(spec, PDFObjRef)"
+               and any(ast.unparse(b) == "objid = spec.objid" for b in n.body)]
+    if not guarded:
+        key_ok = False
     tree = ast.parse(open(os.path.join(repo, "pdfminer", "pdfdocument.py"), encoding="utf-8").read())
     go = find_def(tree, "PDFDocument", "getobj")
     obj_guard = False
@@ -116,6 +138,7 @@ def generate(repo, outdir):
            "Definition font_cache_guarded : bool := %s." % ("true" if font_guard else "false"),
            "Definition object_cache_guarded : bool := %s." % ("true" if obj_guard else "false"),
            "Definition type0_subspec_copied : bool := %s." % ("true" if subspec_copied else "false"),
+           "Definition font_cache_key_is_objid : bool := %s." % ("true" if key_ok else "false"),
            "Definition shared_state_count : nat := %d." % sum(len(v) for v in found.values())]
     write_if_changed(os.path.join(outdir, "Purity.v"), "\n".join(out) + "\n")
     return ["Purity.v"]
